@@ -329,22 +329,77 @@ def wide_inputs(k=2400):
 HUNG = -999      # exit code reported by run_mix when the watchdog fired
 
 
-def run_watch(binp, req, watchdog, env=None):
-    """the conc harness under a watchdog.  When it does not finish in time it is sent SIGQUIT (the Go runtime prints the
-    stack of every goroutine with GOTRACEBACK=all and exits): returns (exit code, stdout, stderr, hung)"""
+WATCH_WINDOW = 30     # seconds without any progress of the harness, after its normal time is over, that make a hang
+WATCH_CAP = 900       # a run that is still making progress is given up after this many seconds
+WATCH_LOG = []        # (mode, seconds, verdict) of every harness run, for the evidence
+
+
+def run_watch(binp, req, watchdog, env=None, _retry=False):
+    """the conc harness under a LOAD-ROBUST watchdog.  `watchdog` is the time the request normally needs with a wide
+    margin on an idle machine; it never decides a hang by itself.  The harness prints "PROGRESS n" once a second
+    (rounds / operations completed): past `watchdog` the run is a hang only if n has not moved for WATCH_WINDOW seconds
+    (a slow machine keeps counting, a call that never returns does not); a run that still counts is given WATCH_CAP
+    seconds.  A harness that never reported progress is re-run once with 8 x the limit before a hang is reported.
+    On a hang the process gets SIGQUIT (GOTRACEBACK=all: the stacks of all goroutines) — returns (rc, stdout, stderr, hung)."""
+    import threading, time as _t
     env = dict(env or os.environ, GOTRACEBACK="all")
     p = subprocess.Popen([binp, "conc"], stdin=subprocess.PIPE, stdout=subprocess.PIPE, stderr=subprocess.PIPE, text=True, env=env)
+    out_parts, err_parts = [], []
+    st = {"val": None, "changed": _t.time(), "seen": False}
+
+    def rd_out():
+        for line in p.stdout:
+            out_parts.append(line)
+
+    def rd_err():
+        for line in p.stderr:
+            if line.startswith("PROGRESS "):
+                st["seen"] = True
+                v = line.split()[1]
+                if v != st["val"]:
+                    st["val"], st["changed"] = v, _t.time()
+                continue
+            err_parts.append(line)
+    th = [threading.Thread(target=rd_out, daemon=True), threading.Thread(target=rd_err, daemon=True)]
+    for t in th:
+        t.start()
     try:
-        out, err = p.communicate(json.dumps(req), timeout=watchdog)
-        return p.returncode, out, err, False
-    except subprocess.TimeoutExpired:
+        p.stdin.write(json.dumps(req))
+        p.stdin.close()
+    except BrokenPipeError:
+        pass
+    t0 = _t.time()
+    window = min(WATCH_WINDOW, max(5, watchdog))
+    hung, why = False, ""
+    while p.poll() is None:
+        _t.sleep(0.2)
+        now = _t.time()
+        if now - t0 <= watchdog:
+            continue
+        if now - st["changed"] > window:
+            hung, why = True, "no progress for %d s (progress counter %s)" % (int(now - st["changed"]), st["val"])
+            break
+        if now - t0 > max(WATCH_CAP, watchdog):
+            hung, why = True, "still running after %d s" % int(now - t0)
+            break
+    if hung:
         p.send_signal(signal.SIGQUIT)
         try:
-            out, err = p.communicate(timeout=60)
+            p.wait(timeout=60)
         except subprocess.TimeoutExpired:
             p.kill()
-            out, err = p.communicate()
-        return p.returncode, out, err, True
+            p.wait()
+    for t in th:
+        t.join(timeout=10)
+    out, err = "".join(out_parts), "".join(err_parts)
+    WATCH_LOG.append({"mode": req.get("mode"), "n": req.get("n"), "seconds": round(_t.time() - t0, 1), "limit_s": watchdog,
+                      "verdict": ("hang: " + why) if hung else "finished", "progress_reported": st["seen"]})
+    if hung and not st["seen"] and not _retry and watchdog * 8 <= WATCH_CAP * 2:
+        # no progress information at all (the harness died before its first report, or does not report): confirm once
+        return run_watch(binp, req, min(WATCH_CAP, watchdog * 8), env=env, _retry=True)
+    if hung:
+        err = "watchdog: " + why + "\n" + err
+    return p.returncode, out, err, hung
 
 
 def blocked_goroutines(dump, running=False):
@@ -435,9 +490,9 @@ def run_rounds(n, rounds, seed, values=None, timeout=None):
     rc, out, err, hung = run_watch(common.stage_harness(), req, wd)
     if hung:
         gs = blocked_goroutines(err, running=True)
-        msg = "fatal error: the barrier-released rounds did not finish within %d s (a recording call never returned); goroutines inside the library: %s" % (
-            wd, "; ".join("%d x %s at %s (%s)" % (g["count"], g["wait"], g["frames"][0], (g["funcs"] or ["?"])[0]) for g in gs if g["frames"])[:600])
-        note_hang("barrier-released concurrent recordings did not finish within %d s" % wd)
+        msg = "fatal error: the barrier-released rounds did not finish (%s, normal time limit %d s: a recording call never returned); goroutines inside the library: %s" % (
+            (err.splitlines() or ["watchdog"])[0], wd, "; ".join("%d x %s at %s (%s)" % (g["count"], g["wait"], g["frames"][0], (g["funcs"] or ["?"])[0]) for g in gs if g["frames"])[:600])
+        note_hang("barrier-released concurrent recordings did not finish (%s)" % (err.splitlines() or ["watchdog"])[0])
         return None, msg
     if rc != 0 or not out.strip():
         return None, err
@@ -466,6 +521,16 @@ def run(tier):
             common.stage_harness(race=True)
     except common.StageError as e:
         return common.stage_fail(rp, e)
+    import time as _time
+    stage_t = {"last": _time.time()}
+    stage_wall = {}
+
+    def mark(name):
+        now = _time.time()
+        stage_wall[name] = round(stage_wall.get(name, 0) + now - stage_t["last"], 1)
+        stage_t["last"] = now
+    stage_t["last"] = rp_start = getattr(rp, "t0", stage_t["last"])
+    mark("staging + Coq (tables, instance lemmas, Props)")
     kf = common.known_findings("C10")
     quick = tier == "quick"
     if not quick and ok_props:
@@ -547,6 +612,7 @@ def run(tier):
             if w:
                 base["model_witness"] = w
         rp.violation(base, "shape_" + name, no_input=not found)
+    mark("metrics programs: shape, model witness, reproduction")
     # ---- hypothesis of min_exact: recorded sizes are lengths
     callers = static.get("metrics_callers") or []
     neg = [c for c in callers if not c["nonneg"]]
@@ -625,6 +691,7 @@ def run(tier):
             base["explanation"] = ("package-level state %s is accessed without a common mutex / Once / atomic operation (%s at %s vs %s at %s): the footprint instance lemma no longer holds" % (
                 cell, "write" if a[1] else "read", wa[0]["pos"] if wa else "?", "write" if b[1] else "read", wb[0]["pos"] if wb else "?"))
         rp.violation(base, "footprint_" + re.sub(r"\W+", "_", root if len(cells_of_root) > 1 else cell), no_input=not found)
+    mark("footprint table and aimed race searches")
     # ---- lock discipline: the acquisition table (Lock / RLock sites with may-held sets) must admit a rank
     rp.cov["lock_order"] = {"mutexes": {m: lt["rank"][m] for m in lt["muts"]}, "acquisition_sites": len(lt["acqs"]), "distinct_rows": len(lt["rows"]),
                             "nested_sites": [{"mutex": a["cell"], "mode": a["mode"], "may_held": a["may_held"], "func": a["func"], "pos": a["pos"]} for a in lt["acqs"] if a["may_held"]],
@@ -703,10 +770,12 @@ def run(tier):
     if ok_inst and not ok_props:
         rp.violation({"kind": "proof", "theorem": "Props/C10.v", "log": logs["props"][-3000:]}, "props_c10", no_input=True)
 
+    mark("lock order / lock leaks and hang searches")
     # ---- sequential correspondence of the translated programs (validates the translator against the real functions)
     if ok_inst is not False or True:
         evals += run_seq_correspondence(rp, tabs, rng, 120 if quick else 1200)
 
+    mark("sequential correspondence (model vs GetStats)")
     # ---- fixed / known findings: witnesses
     for k in kf:
         w = k.get("witness") or {}
@@ -733,6 +802,7 @@ def run(tier):
             else:
                 rp.cov["notes"].append("stale known finding (witness passes now): " + k["key"])
 
+    mark("witnesses of fixed / known findings")
     # ---- barrier-released single-record rounds: totals after quiescence
     total_rounds = 4 * 10 ** 4 if quick else 10 ** 6
     plan = [(2, total_rounds // 2), (min(4, nc), total_rounds // 4), (max(2, nc // 2), total_rounds // 8), (nc, total_rounds // 16), (4 * nc, max(200, total_rounds // 100))]
@@ -764,6 +834,7 @@ def run(tier):
                          "totals_n%d" % n)
     rp.cov["barrier_rounds"] = rounds_samples
 
+    mark("barrier-released rounds")
     # ---- goroutine mixes under the race detector: every result = the sequential answer, no race report
     inputs = workload(rng, tier)
     k = 400 if quick else 20000
@@ -827,6 +898,9 @@ def run(tier):
         if res.get("nondeterministic_alone"):
             rp.cov["notes"].append("operations not deterministic when run alone (excluded from comparison): %s" % res["nondeterministic_alone"][:3])
     rp.cov["mixes"] = mixes
+    mark("goroutine mixes under the race detector")
+    rp.cov["stage_wall_s"] = stage_wall
+    rp.cov["harness_runs"] = WATCH_LOG[-60:]
 
     rp.cov["evaluations"] = evals + rounds_done
     rp.cov["distinct_nontrivial"] = len({i for i in inputs if len(i) > 10}) + len(rounds_samples)
